@@ -50,7 +50,7 @@ def sessionRule : List SessionRule := [
   ⟨"txChecker", "VerifyCache>BeginTxSession>Validate>ProcessCheck>ProcessFee", "order", ""⟩,
   ⟨"txDeliverer", "!(ok && feeOk)", "discard", "commit"⟩,
   ⟨"txDeliverer", "!bytes.Equal(msg.Tx, tx.SignedBytes())", "canonical-guard", "reject"⟩,
-  ⟨"txDeliverer", "GetTxFromCache>BeginTxSession>ProcessDeliver>ProcessFee", "order", ""⟩
+  ⟨"txDeliverer", "GetTxFromCache>BeginTxSession>Validate>ProcessDeliver>ProcessFee", "order", ""⟩
 ]
 
 /-- `range` over a Go map whose body writes state and whose keys are not sorted in the same
